@@ -155,6 +155,14 @@ def _run(ctx, mpc, tape, rng, ok):
     ctx.explanation = ('theorems by induction over the recursions for all lengths; models compared exactly with the real '
                        'functions on the same random tape, and the real functions with a plain-Python oracle')
     exprs, expect = [], []      # Coq expressions and the implementation's canonical results
+    seen_sig = {}
+    _violation = ctx.violation
+
+    def violation(sig, detail):
+        # at most 3 replay files per failing class
+        seen_sig[sig] = seen_sig.get(sig, 0) + 1
+        if seen_sig[sig] <= 3:
+            _violation(sig, detail)
 
     def out(v):
         """Open a (list of) secure value(s) / plain ints to ints."""
@@ -201,7 +209,7 @@ def _run(ctx, mpc, tape, rng, ok):
         want = bits_ref(vx + vy, n)
         key = {'fn': 'add_bits', 'x': xb, 'y': yb, 'type': stype.__name__, 'ysec': ysec}
         if got != want:
-            ctx.violation('add_bits-wrong n=%d' % n, dict(key, got=got, want=want))
+            violation('add_bits-wrong n=%d' % n, dict(key, got=got, want=want))
         ctx.case(key, nontrivial=n >= 1, kind='add_bits n<=5' if n <= 5 else 'add_bits random')
         model('add_bits %s %s' % (zlist(xb), zlist(yb)), got, key, 'add_bits')
 
@@ -247,7 +255,7 @@ def _run(ctx, mpc, tape, rng, ok):
         key['tape'] = [rb, rd]
         if l > L + f:
             if got != 'Assert':
-                ctx.violation('to_bits-no-assert l>L+f', dict(key, got=got))
+                violation('to_bits-no-assert l>L+f', dict(key, got=got))
             ctx.case(key, nontrivial=False, kind='to_bits error stream')
             return
         lp = l - f if integral and l > f else l
@@ -257,9 +265,9 @@ def _run(ctx, mpc, tape, rng, ok):
         want = bits_ref(A, l)
         if oracle and nowrap and got != want:
             if f and l > L and not integral:
-                ctx.violation('to_bits-secfxp-l>bit_length wrong', dict(key, got=got, want=want))
+                violation('to_bits-secfxp-l>bit_length wrong', dict(key, got=got, want=want))
             else:
-                ctx.violation('to_bits-wrong %s l=%d' % (stype.__name__, l), dict(key, got=got, want=want))
+                violation('to_bits-wrong %s l=%d' % (stype.__name__, l), dict(key, got=got, want=want))
         ctx.case(key, nontrivial=l >= 1, kind='to_bits ' + stype.__name__)
         if got == 'Assert':
             return
@@ -319,12 +327,12 @@ def _run(ctx, mpc, tape, rng, ok):
             got = exc_name(e)
         if fld.characteristic != 2 and fld.ext_deg > 1:
             if got != 'Type':
-                ctx.violation('to_bits-extension-field no TypeError', dict(key, got=got))
+                violation('to_bits-extension-field no TypeError', dict(key, got=got))
             ctx.case(key, nontrivial=False, kind='to_bits error stream')
             return
         want = bits_ref(a, l)
         if got != want:
-            ctx.violation('to_bits-wrong %s l=%d' % (key['type'], l), dict(key, got=got, want=want))
+            violation('to_bits-wrong %s l=%d' % (key['type'], l), dict(key, got=got, want=want))
         ctx.case(key, nontrivial=l >= 1, kind='to_bits secfld')
         if fld.characteristic == 2:
             rb = tape.bits_log[-1] if tape.bits_log else []
@@ -376,7 +384,7 @@ def _run(ctx, mpc, tape, rng, ok):
             got %= p
             want %= p
         if got != want:
-            ctx.violation('from_bits-wrong n=%d' % len(xs), dict(key, got=got, want=want))
+            violation('from_bits-wrong n=%d' % len(xs), dict(key, got=got, want=want))
         ctx.case(key, nontrivial=len(xs) >= 1, kind=kind)
         model('from_bits %s' % zlist(xs), (got, p), key, 'from_bits')
 
@@ -398,7 +406,7 @@ def _run(ctx, mpc, tape, rng, ok):
             got = out(mpc.from_bits(mpc.to_bits(st(A), l))) if l else 0
             key = {'fn': 'from_to_bits', 'type': st.__name__, 'A': A, 'l': l}
             if got % st.field.modulus != A % (1 << l):
-                ctx.violation('from_to_bits-wrong l=%d' % l, dict(key, got=got))
+                violation('from_to_bits-wrong l=%d' % l, dict(key, got=got))
             ctx.case(key, nontrivial=l >= 1, kind='from_bits(to_bits)')
 
     # ---------------------------------------------------------------- trailing_zeros, gcp2
@@ -416,7 +424,7 @@ def _run(ctx, mpc, tape, rng, ok):
         upto = l if t is None else t + 1
         want = bits_ref(A, l)[:upto]
         if len(got) != l or got[:upto] != want or any(b not in (0, 1) for b in got):
-            ctx.violation('trailing_zeros-wrong l=%d' % l, dict(key, got=got, want_prefix=want))
+            violation('trailing_zeros-wrong l=%d' % l, dict(key, got=got, want_prefix=want))
         ctx.case(key, nontrivial=l >= 1, kind='trailing_zeros')
         model('trailing_zeros %s %s %s %s %s %s' % (zlit(p), natlit(L), zlit(A), natlit(l), zlist(rb), zlit(rd)),
               got, key, 'trailing_zeros')
@@ -444,11 +452,11 @@ def _run(ctx, mpc, tape, rng, ok):
         want = 1 << (min(cands) if cands else l)     # no common 1 below l: 2^l (documented TODO)
         if l == 0:
             if got != 'Index':
-                ctx.violation('gcp2-l0 unexpected', dict(key, got=got))
+                violation('gcp2-l0 unexpected', dict(key, got=got))
             ctx.case(key, nontrivial=False, kind='gcp2 l=0 (find([],1) IndexError)')
             want = None
         elif got != want:
-            ctx.violation('gcp2-wrong l=%d' % l, dict(key, got=got, want=want))
+            violation('gcp2-wrong l=%d' % l, dict(key, got=got, want=want))
         else:
             ctx.case(key, nontrivial=True, kind='gcp2')
         if len(tape.bits_log) == 2 and len(tape.rand_log) == 2:
@@ -481,7 +489,7 @@ def _run(ctx, mpc, tape, rng, ok):
             got = exc_name(e)
         if isinstance(a, float) and a != int(a):
             if got != 'Value':
-                ctx.violation('unit_vector-nonintegral no ValueError', dict(key, got=got))
+                violation('unit_vector-nonintegral no ValueError', dict(key, got=got))
             ctx.case(key, nontrivial=False, kind='unit_vector error stream')
             return
         a = int(a)
@@ -492,7 +500,7 @@ def _run(ctx, mpc, tape, rng, ok):
         else:
             want = None                      # outside the specification: model correspondence only
         if want is not None and got != want:
-            ctx.violation('unit_vector-wrong n=%d a=%d' % (n, a), dict(key, got=got, want=want))
+            violation('unit_vector-wrong n=%d a=%d' % (n, a), dict(key, got=got, want=want))
         ctx.case(key, nontrivial=want is not None and n >= 2, kind=kind)
         model('unit_vector %s %s' % (zlit(a), zlit(n)), got, key, 'unit_vector')
 
@@ -577,13 +585,13 @@ def _run(ctx, mpc, tape, rng, ok):
                 # the call works: then it must satisfy the specification below
                 pass
             else:
-                ctx.violation('find-f-and-cs_f UnboundLocalError', dict(key, got=got))
+                violation('find-f-and-cs_f UnboundLocalError', dict(key, got=got))
         elif nlen == 0 and bits and not asec and a == 1:
             if got == 'Index':
-                ctx.violation('find-empty-a=1 IndexError', dict(key, got=got))
+                violation('find-empty-a=1 IndexError', dict(key, got=got))
         if isinstance(got, str):
             if not (fname == 'both' or (nlen == 0 and bits and not asec and a == 1)):
-                ctx.violation('find-raises %s' % got, dict(key, got=got))
+                violation('find-raises %s' % got, dict(key, got=got))
             want_model = None
         else:
             res = got[1]
@@ -596,7 +604,7 @@ def _run(ctx, mpc, tape, rng, ok):
                 want = ref_f(ix) if ix is not None else ref_f(e_val)
                 good = y == want
             if not good:
-                ctx.violation('find-wrong e=%s form=%s' % (ename, fname), dict(key, got=str(got), want=want))
+                violation('find-wrong e=%s form=%s' % (ename, fname), dict(key, got=str(got), want=want))
             want_model = got
         ctx.case(key, nontrivial=nlen >= 1, kind='find bits=%s' % bits)
         amodel = ('ASec %s' if asec else 'AInt %s') % zlit(a)
